@@ -125,3 +125,40 @@ Definition rpcase_mon (c : rpcase) : bool :=
   negb (rp_block_while_paused c) && rp_unpause_ok c && rp_final_ok c &&
   (N.eqb (rp_block c) 0 || rp_paused_seen c || (N.of_nat (length (rp_blocks c)) <? rp_block c)).
 Definition rpcase_ok (c : rpcase) : bool := wf_plan (rp_plan c).
+
+(* C01 with a requestor-side pause: the real requestor is paused after its first block (the root, fetched from
+   the scripted peer's first message); while it is parked the peer sends responses for the request carrying
+   Present links with valid blocks (blocks outside the DAG, DAG blocks the selector does not reach, blocks of
+   links not reached yet); then the request is resumed (or cancelled).  In the model everything that arrives
+   while the loader is offline is dropped (RecLoader.ingest), so those messages do not appear in it at all. *)
+Record apcase := {
+  ap_plan : ltree; ap_L : list cid;
+  ap_first : list msg;              (* answer to the first request (skip 0): the root *)
+  ap_paused : list msg;             (* sent while the request was paused *)
+  ap_resumed : bool;                (* Unpause was called afterwards (else the request was cancelled) *)
+  ap_second : list msg;             (* answer to the request sent after the resume *)
+  ap_visits : list N; ap_errs : list N;
+  ap_writes_paused : list (cid * block);   (* commits observed when the paused phase was over *)
+  ap_writes : list (cid * block);          (* all commits, in order *)
+  ap_store : list N
+}.
+Definition ap_mon (c : apcase) : bool :=
+  let ok_write := fun w : cid * block => N.eqb (fst w) (snd w) && existsb (N.eqb (fst w)) (plan_cids (ap_plan c)) in
+  forallb ok_write (ap_writes_paused c) && forallb ok_write (ap_writes c) &&
+  forallb (fun k => existsb (N.eqb k) (ap_L c) || existsb (N.eqb k) (plan_cids (ap_plan c))) (ap_store c) &&
+  subseq (ap_visits c) (plan_visits (ap_plan c)) &&
+  (* nothing is committed while the request is parked: what is there afterwards was there before *)
+  Nat.leb (length (ap_writes_paused c)) 1.
+Definition ap_ok (c : apcase) : bool :=
+  let resp := fun s => if N.eqb s 0 then ap_first c else ap_second c in
+  let r := run_paused proper_prefix resp 0 false (ap_plan c) (store_of (ap_L c)) [] [{| pa_block := 1; pa_inflight := 0 |}] in
+  let x := p_x (fst (fst r)) in
+  let may_cancel := existsb (fun m => existsb (fun rp => for_us m rp && match rs_status rp with StFail => true | _ => false end) (m_resps m)) (ap_second c) in
+  wf_plan (ap_plan c) &&
+  if ap_resumed c && negb (x_cancelled x || may_cancel)
+  then list_eqb N.eqb (ap_visits c) (visits_of (snd (fst r))) &&
+       list_eqb wr_eqb (ap_writes c) (writes_of (x_log x)) &&
+       list_eqb N.eqb (ap_store c) (keyset (x_store x))
+  else (is_prefix (ap_visits c) (visits_of (snd (fst r))) || is_prefix (visits_of (snd (fst r))) (ap_visits c)) &&
+       (* the commits are a prefix of the model's *)
+       list_eqb wr_eqb (ap_writes c) (firstn (length (ap_writes c)) (writes_of (x_log x))).
